@@ -1301,26 +1301,3 @@ package http2
 
 //@ func (*serverConn).flushStreams
 //@ inline
-
-//@ func (*serverConn).handleStreams
-//@ props C06 C08 C09 C10 C13 C14 C17 C18 C01
-//@ requires conn: scInv(sc)
-//@ opt noframe=true
-//@ # ASSUMPTION: int64 window counters and the int stream counter do not overflow
-//@ opt noovf=true
-//@ modifies *sc, anybytes(), family(Stream), family(HeaderField), family(FrameHeader),
-//@ |   family(Data), family(Headers), family(Priority), family(RstStream), family(Settings), family(PushPromise), family(Ping), family(GoAway), family(WindowUpdate), family(Continuation)
-//@ # ---- main loop: the connection object stays usable and every stream in the table is usable ----
-//@ loop 0: invariant ok: scOK(sc) && sc.maxRequestTimer != nil
-//@ loop 0: invariant dec: hpackOK(sc.dec)
-//@ loop 0: invariant enc: hpackOK(sc.enc)
-//@ loop 0: invariant rwin: sc.maxWindow >= 0 && sc.currentWindow >= sc.maxWindow / 2 && sc.currentWindow <= sc.maxWindow
-//@ loop 0: invariant swin: sc.clientWindow <= 2147483647
-//@ loop 0: invariant table: strmsOK(strms)
-//@ # the frame handled in the last iteration is released at the top of the next one
-//@ loop 0: invariant handled: handled == nil || handled.fr != nil
-//@ # the ring of recently closed stream ids (at most 256 of them)
-//@ loop 0: invariant ring: closedOldest >= 0 && closedOldest < 256 && len(closedRing) <= 256
-//@ # ---- SETTINGS_INITIAL_WINDOW_SIZE: the delta reaches every stream in the table (RFC 7540 6.9.2) ----
-//@ loop 3: invariant conn: scInv(sc)
-//@ loop 3: invariant table: forall(i, 0, len(strms), strms[i] != nil && strms[i].ctx != nil && strms[i].recvBody >= 0)
